@@ -818,6 +818,15 @@ fn parse_expr(
                         )]);
                     }
 
+                    // the span of `self(..)` is the span of `self`, a name: the operand itself has to be one
+                    if !matches!(lhs, Expr::Value(Value::Ident(..))) {
+                        return Err(vec![new_err(
+                            span.as_span(),
+                            &user_data.get_source_file_name(),
+                            "this operation requires a name, but it found a call".to_owned(),
+                        )]);
+                    }
+
                     Op::Unwrap
                 },
                 Rule::add_assign => Op::AddAssign,
